@@ -1,0 +1,72 @@
+//go:build verif
+
+package dastard
+
+// Thin access for the write-control checks (C06, C20) of the out-of-tree verification harness.
+// Compiled only with `-tags verif`; adds no behaviour to the normal build.
+
+import (
+	"time"
+
+	"gonum.org/v1/gonum/mat"
+)
+
+// VerifC06LoadProjectors builds an nbases x NSamples projector matrix (and its NSamples x nbases
+// basis) for channel ch and hands them to the real AnySource.ConfigureProjectorsBases.
+func (vs *VerifSource) VerifC06LoadProjectors(ch, nbases int) error {
+	nsamp := 1
+	if ch >= 0 && ch < len(vs.processors) {
+		nsamp = vs.processors[ch].NSamples
+	}
+	p := make([]float64, nbases*nsamp)
+	b := make([]float64, nsamp*nbases)
+	for i := range p {
+		p[i] = float64(i%7) / 8
+		b[i] = float64(i%5) / 4
+	}
+	return vs.ConfigureProjectorsBases(ch, mat.NewDense(nbases, nsamp, p), mat.NewDense(nsamp, nbases, b), "verif")
+}
+
+// VerifC06PublishDirect makes n records of channel ch's current record length, runs the real
+// AnalyzeData on them and hands them to the channel's real PublishData (as processSegment does).
+func (vs *VerifSource) VerifC06PublishDirect(ch, n int, firstFrame int64, firstTimeNs int64) error {
+	dsp := vs.processors[ch]
+	recs := make([]*DataRecord, n)
+	for i := range recs {
+		d := make([]RawType, dsp.NSamples)
+		for j := range d {
+			d[j] = RawType(1000 + 3*i + j)
+		}
+		recs[i] = &DataRecord{data: d, trigFrame: FrameIndex(firstFrame + int64(i)*int64(dsp.NSamples)),
+			trigTime: time.Unix(0, firstTimeNs+int64(i)*1000), channelIndex: ch, presamples: dsp.NPresamples,
+			voltsPerArb: 1. / 65535.0, sampPeriod: float32(1 / dsp.SampleRate)}
+	}
+	dsp.AnalyzeData(recs)
+	err := dsp.DataPublisher.PublishData(recs)
+	for {
+		select {
+		case <-vs.captured:
+			continue
+		default:
+		}
+		break
+	}
+	return err
+}
+
+// VerifC06FlushWriters flushes every channel's open data files (what the periodic flush of
+// ProcessSegments does), so that the harness can read back what has been stored so far.
+func (vs *VerifSource) VerifC06FlushWriters() {
+	for _, dsp := range vs.processors {
+		dsp.DataPublisher.Flush()
+	}
+}
+
+// VerifC06HasProjectors reports which channels have projectors loaded.
+func (vs *VerifSource) VerifC06HasProjectors() []bool {
+	out := make([]bool, len(vs.processors))
+	for i, dsp := range vs.processors {
+		out[i] = dsp.HasProjectors()
+	}
+	return out
+}
